@@ -266,6 +266,10 @@ class EvalMixin:
     def contains(self, st, cont, x, node):
         cont = self.unbox(st, cont)
         ty = cont.ty
+        if ty == PyFunc and cont.t[0] == "dictview" and cont.t[1] == "values":
+            d = cont.t[2]
+            k = z3.Const("k!dv%d" % (id(node) % 9973), T.sort_of(d.ty.k))
+            return z3.Exists([k], z3.And(z3.Select(T.dict_dom(d.ty, d.t), k), z3.Select(T.dict_map(d.ty, d.t), k) == self.coerce(x, d.ty.v).t))
         if ty == Display:
             return z3.Or([self.eq(x, e, st) for e in cont.t] + [z3.BoolVal(False)])
         if ty == T.Str: return z3.Contains(cont.t, self.coerce(x, T.Str).t)
